@@ -136,6 +136,8 @@ class HistProp:
         extra_cov = {}
         if self.extra and not args.replay:
             xv, extra_cov = self.extra(pid, tier, seed)
+            # a failing input (P) is reported in preference to a correspondence that no longer checks
+            xv = sorted(xv, key=lambda x: x[0] != 'P')
             if xv and needs_confirmation(xv[0][1]):
                 # harnesses that decide by waiting (a watchdog, "still blocked after 30 ms"): the failure must show again
                 xv2, _ = self.extra(pid, tier, seed)
@@ -362,6 +364,10 @@ def cfg_c12(rng):
     p = prof_base(rng, versions=rng.choice([[2], [2], [1, 2]]))
     p['weights'] = w(delm=18)
     p['weights']['del'] = 40
+    if rng.random() < 0.15:
+        # a few profiles with messages of a page or more, in segments large enough to hold several of them
+        p['p_bigval'] = 0.5
+        p['rollovers'] = [30000, 100000]
     return p
 
 
